@@ -1,6 +1,8 @@
 (* C13 model driver.  Input lines (see harness/c13/main.go), [x]+ meaning a counted repetition
    "n x1 .. xn":
-     id C csr [ map [code cid]+ [first last cid]+ ]+ [probe]+       levels root first: map, notdef singles, notdef ranges
+     id C csr all [ [code cid]+ [first last cid]+ [code cid]+ [first last cid]+ ]+ [ map [code cid]+ [first last cid]+ ]+ [probe]+
+                          hand-made parents root first (singles, ranges, notdef singles, notdef ranges), then the levels
+                          SetMapping builds, root first: map, notdef singles, notdef ranges
      id T csr [ map ]+ [probe]+
      id F csr all [code cid]+ [first last cid]+ [probe]+              hand-made CID file
      id U csr all [code text]+ [first last [text]+ ]+ [probe]+        hand-made ToUnicode file
@@ -122,23 +124,37 @@ let () =
     match words line with
     | id :: "C" :: rest ->
       let (csr, rest) = rd_csr rest in
-      let rd_level toks =
-        match toks with
-        | m :: r ->
-          let (nds, r) = counted rd_csingle r in
-          let (ndr, r) = counted rd_crange r in
-          ((cid_map m, nds, ndr), r)
-        | [] -> failwith "level" in
-      let (levels, rest) = counted rd_level rest in
-      let (probes, _) = rd_probes rest in
-      let f = Stdlib.List.fold_left (fun par (m, nds, ndr) ->
-          Some (set_mapping csr (CFile ([], [], [], nds, ndr, par)) m)) None levels in
-      (match f with
-       | None -> Printf.printf "%s nolevels\n" id
-       | Some f ->
-         (* projection: an entry whose CID is the notdef result of its code may or may not be listed *)
-         let listed = Stdlib.List.filter (fun (k, v) -> lookup_notdef f (append_code csr k) <> v) (collect (all_cid csr f)) in
-         Printf.printf "%s L=%s A=%s\n" id (lookups_cid f probes) (cid_map_out listed))
+      (match rest with
+       | all :: rest ->
+         (* hand-made parent files, root first: singles, ranges, notdef singles, notdef ranges *)
+         let rd_base toks =
+           let (ss, r) = counted rd_csingle toks in
+           let (rr, r) = counted rd_crange r in
+           let (nds, r) = counted rd_csingle r in
+           let (ndr, r) = counted rd_crange r in
+           ((ss, rr, nds, ndr), r) in
+         let (bases, rest) = counted rd_base rest in
+         let rd_level toks =
+           match toks with
+           | m :: r ->
+             let (nds, r) = counted rd_csingle r in
+             let (ndr, r) = counted rd_crange r in
+             ((cid_map m, nds, ndr), r)
+           | [] -> failwith "level" in
+         let (levels, rest) = counted rd_level rest in
+         let (probes, _) = rd_probes rest in
+         let base = Stdlib.List.fold_left (fun par (ss, rr, nds, ndr) -> Some (CFile (csr, ss, rr, nds, ndr, par))) None bases in
+         let f = Stdlib.List.fold_left (fun par (m, nds, ndr) ->
+             Some (set_mapping csr (CFile ([], [], [], nds, ndr, par)) m)) base levels in
+         (match f with
+          | None -> Printf.printf "%s nolevels\n" id
+          | Some f ->
+            if all = "1" then begin
+              (* projection: an entry whose CID is the notdef result of its code may or may not be listed *)
+              let listed = Stdlib.List.filter (fun (k, v) -> lookup_notdef f (append_code csr k) <> v) (collect (all_cid csr f)) in
+              Printf.printf "%s L=%s A=%s\n" id (lookups_cid f probes) (cid_map_out listed) end
+            else Printf.printf "%s L=%s A=skipped\n" id (lookups_cid f probes))
+       | [] -> Printf.printf "%s badcase\n" id)
     | id :: "T" :: rest ->
       let (csr, rest) = rd_csr rest in
       let (levels, rest) = counted (function m :: r -> (tu_map m, r) | [] -> failwith "level") rest in
